@@ -10,11 +10,23 @@ mod util;
 
 fn main() {
     let args = mc_core::cli::parse();
-    let code = match args.property.as_str() {
+    // panics of the subject are caught where they are outcomes; anything that unwinds up to here
+    // is a problem of the machinery, never a verdict
+    let r = std::panic::catch_unwind(|| match args.property.as_str() {
         "C11" => c11::main(&args),
         "C16" => c16::main(&args),
         other => {
             eprintln!("MACHINERY: webx does not serve property '{other}'");
+            2
+        }
+    });
+    let code = match r {
+        Ok(c) => c,
+        Err(_) => {
+            let (msg, loc) = util::take_panic().unwrap_or_default();
+            let any = util::LAST_ANY.lock().ok().and_then(|g| g.clone()).unwrap_or_default();
+            eprintln!("MACHINERY: uncaught panic in the engine (main thread: {msg} at {loc}; last panic anywhere: {any})");
+            c16::cleanup();
             2
         }
     };
